@@ -106,7 +106,7 @@ def check_prog(ctx, r, prog, n_values):
                     doc = "{" + dumps(n) + ":" + rng.choice(bodies) + "}"
                 cmds.append({"prog": pn, "op": f"parse:{part['id']}:{kind}", "doc": doc})
                 meta.append((part["id"], kind, n, n in own, doc))
-                if "hantom" in n:
+                if n in ("__phantom", "_phantom", "_Phantom", "phantom") and n not in own:
                     for bdy in ("null", "[]", "{}", "[null]", "\"x\""):
                         doc2 = "{" + dumps(n) + ":" + bdy + "}"
                         cmds.append({"prog": pn, "op": f"parse:{part['id']}:{kind}", "doc": doc2})
